@@ -70,7 +70,7 @@ func Load(repoDir string, overlay map[string][]byte, patterns []string) (*Progra
 	}
 	prog, spkgs := ssautil.AllPackages(pkgs, ssa.InstantiateGenerics)
 	prog.Build()
-	p := &Program{Prog: prog, Stubs: map[string]*ssa.Function{}, Guards: map[string]*ssa.Function{}, RepoPath: RepoModule}
+	p := &Program{Prog: prog, Stubs: map[string]*ssa.Function{}, Guards: map[string]*ssa.Function{}, EngineOnly: map[string]bool{}, RepoPath: RepoModule}
 	// stub annotations: //verif:stub <target> on function declarations in overlay files
 	packages.Visit(pkgs, nil, func(pk *packages.Package) {
 		if !strings.HasPrefix(pk.PkgPath, RepoModule) {
@@ -88,6 +88,13 @@ func Load(repoDir string, overlay map[string][]byte, patterns []string) (*Progra
 				}
 				for _, c := range fd.Doc.List {
 					txt := strings.TrimSpace(strings.TrimPrefix(c.Text, "//"))
+					engineOnly := false
+					if strings.HasPrefix(txt, "verif:enginestub ") {
+						// stub of code outside the repository: the engine redirects it, native
+						// replay runs the real dependency
+						engineOnly = true
+						txt = "verif:stub " + strings.TrimPrefix(txt, "verif:enginestub ")
+					}
 					if !strings.HasPrefix(txt, "verif:stub ") {
 						continue
 					}
@@ -103,6 +110,9 @@ func Load(repoDir string, overlay map[string][]byte, patterns []string) (*Progra
 						continue
 					}
 					p.Stubs[target] = fn
+					if engineOnly {
+						p.EngineOnly[target] = true
+					}
 					if guard != "" {
 						g := sp.Func(guard)
 						if g == nil {
